@@ -321,6 +321,14 @@ static void init(void) {
   va_install();
   vf_guard_end();
   const vf_alphabet* a = &VF_SIGMA;
+  /* zero-length strings and zero-count containers written with longer-than-needed heads: complete at their head, like the short forms */
+  static const char* ZERO_HEX[] = {"5800", "590000", "5a00000000", "5b0000000000000000", "7800", "7a00000000", "7b0000000000000000", "9800", "9a00000000", "b90000", "bb0000000000000000", NULL};
+  for (unsigned z = 0; ZERO_HEX[z]; z++) {
+    vf_tok t;
+    memset(&t, 0, sizeof t);
+    t.n = vf_unhex(t.b, sizeof t.b, ZERO_HEX[z]);
+    OKT[nok++] = t;
+  }
   for (size_t i = 0; i < a->ntoks; i++) {
     rhead h;
     if (ref_head(a->toks[i].b, a->toks[i].n, 0, &h) == RH_OK) OKT[nok++] = a->toks[i];
